@@ -35,6 +35,8 @@ struct mbuf {
     int external;
     unsigned char *base;        /* what data() must return */
     void *ext;                  /* external buffer (harness-owned block) */
+    int extowner;               /* this entry frees `ext` when it dies (other entries may describe the same caller memory) */
+    int virt;                   /* caller claims far more elements than are backed by memory: addresses are computed, never dereferenced */
     int refs;
     int nblk, blk[MAXBLK];      /* library blocks allocated for this buffer */
 };
@@ -74,8 +76,11 @@ static void check_death(int b, const char *what)
     mb[b].live = 0;
     if (mb[b].external && mb[b].ext) {
         /* the library never frees a caller's buffer (sim heap reports that itself); the harness owns it again */
+        int o2, users = 0;
         if (!simheap_is_live(mb[b].ext)) VIOL("external_freed", "%s: the library released an externally supplied buffer", what);
-        simheap_free(mb[b].ext); mb[b].ext = NULL;
+        for (o2 = 0; o2 < nbuf; o2++) if (o2 != b && mb[o2].live && mb[o2].external && mb[o2].ext == mb[b].ext) users++;
+        if (users == 0) simheap_free(mb[b].ext);      /* last description of this caller memory */
+        mb[b].ext = NULL;
     }
     PROBE("buffer_released_with_last_view");
 }
@@ -135,7 +140,7 @@ static void audit_all(const char *when)
                 if (g_aborted) VIOL("at_in_range_aborts", "%s: at(%zu) aborted with size %zu", when, probes[k], m->len);
                 if (p != bf->base + (m->off + probes[k]) * bf->sz)
                     VIOL("at_address", "%s: at(%zu) of object %d (view offset %zu) does not address element %zu of the buffer", when, probes[k], o, m->off, m->off + probes[k]);
-                if (simheap_find(p, &live, &off, &size) < 0 || !live || off + bf->sz > size)
+                if (!bf->virt && (simheap_find(p, &live, &off, &size) < 0 || !live || off + bf->sz > size))
                     VIOL("at_outside_block", "%s: at(%zu) of object %d points outside any live allocation", when, probes[k], o);
             }
             views++;
@@ -148,7 +153,7 @@ static void audit_all(const char *when)
                 VIOL("buffer_released_early", "%s: block #%d of buffer %d was released while %d array objects still refer to it", when, mb[b].blk[j], b, mb[b].refs);
             nblocks++;
         }
-        if (mb[b].external && !simheap_is_live(mb[b].ext)) VIOL("external_freed", "%s: an externally supplied buffer was released", when);
+        if (mb[b].external && mb[b].ext && !simheap_is_live(mb[b].ext)) VIOL("external_freed", "%s: an externally supplied buffer was released", when);
     }
     if (simheap_live_count(TAG_LIB) != nblocks)
         VIOL("block_accounting", "%s: %u library blocks are live, the buffers in use account for %u (leak)", when, simheap_live_count(TAG_LIB), nblocks);
@@ -261,9 +266,28 @@ alloc_done:
         }
         case A_SET: {
             size_t sz = (size_t)(1 + op->a[3] % 16), nm = (size_t)(op->a[4] % 24);
-            void *ext = simheap_alloc(nm * sz ? nm * sz : 1, TAG_EXT);
-            int b;
+            void *ext = NULL; int b, shared_base = -1, virt = 0, q;
+            /* a caller may describe the same memory twice (e.g. a byte view and a word view of one buffer) ... */
+            if ((op->a[2] % 3) == 1) {
+                for (q = 0; q < nbuf; q++) if (mb[q].live && mb[q].external && mb[q].ext && !mb[q].virt) shared_base = q;
+                if (shared_base >= 0) {
+                    size_t bytes = simheap_size(mb[shared_base].ext);
+                    ext = mb[shared_base].ext;
+                    sz = (size_t)(1 + op->a[3] % 8);
+                    nm = bytes / sz;
+                    PROBE("set_same_base_twice");
+                }
+            }
+            /* ... or claim a very large buffer: the library only does address arithmetic on it */
+            if (ext == NULL && (op->a[2] % 3) == 2 && (op->a[5] & 3) == 0) {
+                static const uint64_t claims[] = { ((uint64_t)1 << 31) + 4096, ((uint64_t)1 << 32) + 4096, ((uint64_t)1 << 33) + 7, ((uint64_t)1 << 31) - 1 };
+                virt = 1; sz = (op->a[3] & 1) ? 1 : 4; nm = (size_t)claims[(op->a[5] >> 2) % 4];
+                ext = simheap_alloc(64, TAG_EXT);
+                PROBE("set_virtual_huge_buffer");
+            }
+            if (ext == NULL) ext = simheap_alloc(nm * sz ? nm * sz : 1, TAG_EXT);
             if (ma->buf >= 0 && ma->off != 0) { PROBE("set_on_sliced_object"); ctx = "dest-sliced"; }
+            if (virt) ctx = "huge-external"; else if (shared_base >= 0) ctx = "same-base-twice";
             g_cur_ctx = ctx;
             TRY(cstl_array_set(&arr[a], ext, nm, sz));
             capture_allocs();
@@ -272,10 +296,10 @@ alloc_done:
             if (g_hs.fired_in_op || g_hs.enomem_in_op) {
                 PROBE("alloc_fail_fired");
                 if (cstl_array_size(&arr[a]) != 0) VIOL("failed_alloc_not_empty", "set failed to allocate its bookkeeping but the object reports size %zu", cstl_array_size(&arr[a]));
-                simheap_free(ext);
+                if (shared_base < 0) simheap_free(ext);
             } else {
                 b = new_buf();
-                mb[b].nm = nm; mb[b].sz = sz; mb[b].external = 1; mb[b].ext = ext; mb[b].base = ext; mb[b].refs = 1;
+                mb[b].nm = nm; mb[b].sz = sz; mb[b].external = 1; mb[b].ext = ext; mb[b].base = ext; mb[b].refs = 1; mb[b].virt = virt;
                 adopt_blocks(&mb[b]);
                 ma->buf = b; ma->off = 0; ma->len = nm;
                 PROBE("set_external");
@@ -295,6 +319,11 @@ alloc_done:
                 if (!provoke) {
                     end = (op->a[2] % 4 == 0) ? room : (op->a[2] % 4 == 1) ? ma->len : (size_t)(op->a[4] % (room + 1));
                     beg = (op->a[3] % 4 == 0) ? end : (op->a[3] % 4 == 1) ? 0 : (size_t)(op->a[5] % (end + 1));
+                    if (mb[ma->buf].virt && room > ((size_t)1 << 31) && (op->a[4] & 1)) {
+                        /* views that start beyond 2^31 / 2^32 elements: index arithmetic narrower than size_t shows here */
+                        size_t lo = (op->a[4] & 2) && room > ((size_t)1 << 32) + 64 ? (size_t)1 << 32 : (size_t)1 << 31;
+                        if (lo >= ma->off && lo - ma->off + 16 <= room) { beg = lo - ma->off + (size_t)(op->a[5] % 3); end = beg + 1 + (size_t)(op->a[5] % 13); PROBE("slice_beyond_2^31"); }
+                    }
                     if (end > ma->len) PROBE("slice_beyond_own_length");
                 } else {
                     switch (op->a[2] % 9) {
